@@ -360,7 +360,7 @@ impl Check for C14 {
         ]
     }
     fn cases(tier: Tier) -> u32 {
-        tier.pick(64, 800)
+        tier.pick(160, 1600)
     }
     fn strategy(tier: Tier) -> BoxedStrategy<FaultCase> {
         (
